@@ -72,13 +72,27 @@ mod verif_replay_c14 {
         v.as_array().map(|a| a.iter().map(|x| x.as_u64().unwrap_or(0) as u8).collect()).unwrap_or_default()
     }
 
-    async fn extract_over_loopback(frames: Vec<Vec<u8>>, error_at: Option<usize>, trailers: bool) -> Result<Vec<u8>, String> {
+    /// `content_length`: send the body with a (truthful) Content-Length header instead of chunked encoding
+    async fn extract_over_loopback(frames: Vec<Vec<u8>>, error_at: Option<usize>, trailers: bool, limit: BodySizeLimit, content_length: bool) -> Result<Vec<u8>, ExtractBufferedBodyError> {
         use std::io::Write;
-        let listener = tokio::net::TcpListener::bind("127.0.0.1:0").await.map_err(|e| e.to_string())?;
-        let addr = listener.local_addr().map_err(|e| e.to_string())?;
+        let listener = tokio::net::TcpListener::bind("127.0.0.1:0").await.expect("bind");
+        let addr = listener.local_addr().expect("addr");
         let client = std::thread::spawn(move || {
             let mut s = std::net::TcpStream::connect(addr).expect("connect");
             s.set_nodelay(true).ok();
+            if content_length {
+                let total: usize = frames.iter().map(|f| f.len()).sum();
+                s.write_all(format!("POST / HTTP/1.1\r\nHost: x\r\nContent-Length: {total}\r\n\r\n").as_bytes()).unwrap();
+                for f in frames.iter() {
+                    let _ = s.write_all(f);
+                    let _ = s.flush();
+                    std::thread::sleep(std::time::Duration::from_millis(15));
+                }
+                let mut buf = [0u8; 256];
+                use std::io::Read;
+                let _ = s.read(&mut buf);
+                return;
+            }
             s.write_all(b"POST / HTTP/1.1\r\nHost: x\r\nTransfer-Encoding: chunked\r\n\r\n").unwrap();
             for (i, f) in frames.iter().enumerate() {
                 if Some(i) == error_at {
@@ -107,20 +121,17 @@ mod verif_replay_c14 {
             use std::io::Read;
             let _ = s.read(&mut buf);
         });
-        let (stream, _) = listener.accept().await.map_err(|e| e.to_string())?;
+        let (stream, _) = listener.accept().await.expect("accept");
         let io = hyper_util::rt::TokioIo::new(stream);
-        let (tx, rx) = tokio::sync::oneshot::channel::<Result<Vec<u8>, String>>();
+        let (tx, rx) = tokio::sync::oneshot::channel::<Result<Vec<u8>, ExtractBufferedBodyError>>();
         let tx = std::sync::Arc::new(std::sync::Mutex::new(Some(tx)));
         let svc = hyper::service::service_fn(move |req: hyper::Request<hyper::body::Incoming>| {
             let tx = tx.clone();
             async move {
                 let (parts, body) = req.into_parts();
                 let head: RequestHead = parts.into();
-                let r = BufferedBody::extract(&head, RawIncomingBody::from(body), BodySizeLimit::Disabled).await;
-                let out = match r {
-                    Ok(b) => Ok(b.bytes.to_vec()),
-                    Err(e) => Err(format!("{e:?}")),
-                };
+                let r = BufferedBody::extract(&head, RawIncomingBody::from(body), limit).await;
+                let out = r.map(|b| b.bytes.to_vec());
                 if let Some(tx) = tx.lock().unwrap().take() {
                     let _ = tx.send(out);
                 }
@@ -132,7 +143,7 @@ mod verif_replay_c14 {
         let _ = client.join();
         match tokio::time::timeout(std::time::Duration::from_secs(5), rx).await {
             Ok(Ok(r)) => r,
-            _ => Err("the handler never ran".to_string()),
+            _ => panic!("the handler never ran"),
         }
     }
 
@@ -159,6 +170,24 @@ mod verif_replay_c14 {
         let garbage = header.is_some() && cl.is_none();
         let rt = tokio::runtime::Builder::new_current_thread().enable_all().build().unwrap();
 
+        // the property, for a limit of n bytes
+        let judge = |r: &Result<Vec<u8>, ExtractBufferedBodyError>, n: u64, cl: Option<u64>, garbage: bool, via: &str| -> Option<String> {
+            match (r, error_at) {
+                (Ok(_), Some(_)) => Some(format!("{via}: a body whose transport failed was returned as if complete")),
+                (Ok(b), None) if b.len() as u64 > n => Some(format!("{via}: {} bytes handed to the application under a limit of {n}", b.len())),
+                (Ok(b), None) if b.as_slice() != sent.as_slice() => Some(format!("{via}: the buffered body differs from what the client sent")),
+                (Ok(_), None) => None,
+                (Err(_), Some(_)) => None,
+                (Err(ExtractBufferedBodyError::SizeLimitExceeded(_)), None) => {
+                    if garbage || sent.len() as u64 > n || cl.map_or(false, |c| c > n) {
+                        None
+                    } else {
+                        Some(format!("{via}: size-limit error for {} bytes (Content-Length {cl:?}) under a limit of {n}", sent.len()))
+                    }
+                }
+                (Err(e), None) => Some(format!("{via}: an intact body was refused with {e:?}")),
+            }
+        };
         let verdict: Option<String> = match limit {
             Some(n) => {
                 let mut headers = HeaderMap::new();
@@ -178,31 +207,27 @@ mod verif_replay_c14 {
                 }
                 let head = RequestHead { method: http::Method::POST, target: "/".parse().unwrap(), version: http::Version::HTTP_11, headers };
                 let body = Frames { frames: frames.clone(), error_at, trailers, next: 0 };
-                let r = rt.block_on(BufferedBody::_extract_with_limit(&head, body, n.bytes()));
-                match (&r, error_at) {
-                    (Ok(_), Some(_)) => Some("a body whose transport failed was returned as if complete".into()),
-                    (Ok(b), None) if b.bytes.len() as u64 > n => Some(format!("{} bytes handed to the application under a limit of {n}", b.bytes.len())),
-                    (Ok(b), None) if b.bytes.as_ref() != sent.as_slice() => Some("the buffered body differs from what the client sent".into()),
-                    (Ok(_), None) => None,
-                    (Err(_), Some(_)) => None,
-                    (Err(ExtractBufferedBodyError::SizeLimitExceeded(_)), None) => {
-                        if garbage || sent.len() as u64 > n || cl.map_or(false, |c| c > n) {
-                            None
-                        } else {
-                            Some(format!("size-limit error for {} bytes (Content-Length {cl:?}) under a limit of {n}", sent.len()))
-                        }
-                    }
-                    (Err(e), None) => Some(format!("an intact body was refused with {e:?}")),
-                }
+                let r = rt.block_on(BufferedBody::_extract_with_limit(&head, body, n.bytes())).map(|b| b.bytes.to_vec());
+                let direct = judge(&r, n, cl, garbage, "_extract_with_limit");
+                // the public entry point too, whenever hyper can deliver the request as scripted: no
+                // Content-Length (chunked) or a truthful one
+                let truthful = cl == Some(sent.len() as u64) && error_at.is_none() && !trailers;
+                let through_extract = if direct.is_none() && (header.is_none() || truthful) {
+                    let r = rt.block_on(extract_over_loopback(frames.clone(), error_at, trailers, BodySizeLimit::Enabled { max_size: n.bytes() }, truthful));
+                    judge(&r, n, if truthful { cl } else { None }, false, "BufferedBody::extract over a real connection")
+                } else {
+                    None
+                };
+                direct.or(through_extract)
             }
             None => {
-                let r = rt.block_on(extract_over_loopback(frames.clone(), error_at, trailers));
+                let r = rt.block_on(extract_over_loopback(frames.clone(), error_at, trailers, BodySizeLimit::Disabled, false));
                 match (&r, error_at) {
                     (Ok(_), Some(_)) => Some("a body whose transport failed was returned as if complete (no limit)".into()),
                     (Ok(b), None) if b != &sent => Some("the buffered body differs from what the client sent (no limit)".into()),
                     (Ok(_), None) => None,
                     (Err(_), Some(_)) => None,
-                    (Err(e), None) => Some(format!("an intact body was refused although no limit is configured: {e}")),
+                    (Err(e), None) => Some(format!("an intact body was refused although no limit is configured: {e:?}")),
                 }
             }
         };
